@@ -55,6 +55,8 @@ pub fn run(a: &Args) {
             let mut w = MinidumpWriter::new(pid, pid);
             if let Some(d) = d2 { w.set_direct_auxv_dump_info(d); }
             let mut dest = std::io::Cursor::new(Vec::new());
+            // every fourth case the writer has already served a request: what the caller supplied serves this one too
+            if case % 4 == 3 { let mut d0 = std::io::Cursor::new(Vec::new()); let _ = quiet_catch(std::panic::AssertUnwindSafe(|| w.dump(&mut d0).map(|_| ()).map_err(|_| ()))); }
             let (res, world, _) = with_hooks(pid, pid, true, None, || quiet_catch(std::panic::AssertUnwindSafe(|| w.dump(&mut dest).map_err(|e| format!("{e:?}")))));
             // the child hands back: outcome, image, and the world files as hex lines
             let mut s = String::new();
